@@ -181,7 +181,7 @@ pub fn profile_for(prop: usize, fi: bool) -> Profile {
         4 => {
             p.faults = &["N-DROP", "B-POST"];
             p.policy_w = [25, 15, 60, 0];
-            p.start_w = [5, 25, 15, 45, 10];
+            p.start_w = [5, 20, 15, 35, 25];
             p.max_plies = 120;
             p.max_events = 1200;
         }
@@ -315,7 +315,7 @@ impl World {
             flag_falls: on("T-JUMP") && rng.chance(1, 4),
             pers,
             policy,
-            w_offer: if storm { 25 } else if prof.prop == 10 { 3 } else { 0 },
+            w_offer: if storm { 25 } else if prof.prop == 10 { 3 } else if prof.prop == 11 && rng.chance(1, 2) { 6 } else { 0 },
             w_accept: if storm { 20 } else if prof.prop == 10 { 2 } else { 0 },
             w_resign: if storm { 2 } else if prof.prop == 10 && rng.chance(1, 4) { 1 } else { 0 },
             w_claim: if storm { 8 } else if prof.prop == 10 { 3 } else if prof.prop == 11 && rng.chance(1, 3) { 1 } else { 0 },
@@ -513,7 +513,10 @@ impl World {
                     castle |= 1 << i;
                 }
             }
-            self.op(Op::StartBuilder { placement: squares_to_placement(&pos.sq), stm: pos.stm, castle, ep_file })
+            {
+                let order = self.rng.below(16) as u8;
+                self.op(Op::StartBuilder { placement: squares_to_placement(&pos.sq), stm: pos.stm, castle, ep_file, order })
+            }
         } else {
             // alternate between the two standard spellings of the en-passant field
             let text = if self.rng.chance(1, 2) { pos.fen() } else { pos.fen_ep_if_beside() };
@@ -1467,7 +1470,10 @@ impl World {
                     let r = self.rng.below(12);
                     if r < 2 {
                         let (placement, stm, castle, ep_file) = gen::arbitrary_builder(&mut self.rng);
-                        self.op(Op::ValidateBuilder { placement, stm, castle, ep_file })?;
+                        {
+                            let order = if self.rng.chance(1, 2) { 0 } else { self.rng.below(16) as u8 };
+                            self.op(Op::ValidateBuilder { placement, stm, castle, ep_file, order })?;
+                        }
                     } else if r < 3 {
                         // neighbours of the current position through the builder (one square changed, rights, ep file)
                         let mut pl: Vec<u8> = squares_to_placement(&pos.sq).into_bytes();
@@ -1476,7 +1482,10 @@ impl World {
                         let stm = if self.rng.chance(1, 4) { pos.stm.other() } else { pos.stm };
                         let castle = self.rng.below(16) as u8;
                         let ep_file = if self.rng.chance(1, 2) { 8 } else { self.rng.below(8) as u8 };
-                        self.op(Op::ValidateBuilder { placement: String::from_utf8(pl).unwrap(), stm, castle, ep_file })?;
+                        {
+                            let order = self.rng.below(16) as u8;
+                            self.op(Op::ValidateBuilder { placement: String::from_utf8(pl).unwrap(), stm, castle, ep_file, order })?;
+                        }
                     } else if r < 4 {
                         let t = self.noise();
                         self.op(Op::Validate { text: t })?;
